@@ -259,6 +259,15 @@ def mem_theory(elem_sort):
         z3.Implies(z3.And(0 <= mi, mi < LT.len(mk), LT.at(mk, mi) == mx), mem(mk, mx)),
         f"mem.intro.{LT.name}",
     )
+    me = z3.Const(f"_mem_e_{LT.name}", elem_sort)
+    # derived from mem.elim / mem.intro / at.snoc (membership in an extended list)
+    TH.axiom(
+        [mk, me, mx],
+        mem(LT.snoc(mk, me), mx),
+        mem(LT.snoc(mk, me), mx) == z3.Or(mem(mk, mx), mx == me),
+        f"mem.snoc.{LT.name}",
+    )
+    TH.axiom([mx], mem(LT.nil, mx), z3.Not(mem(LT.nil, mx)), f"mem.nil.{LT.name}")
     _mem_cache[key] = (mem, memw)
     return _mem_cache[key]
 
